@@ -45,6 +45,12 @@ def mainImpl (args : List String) : IO UInt32 := do
     for e in c.errors do IO.println s!"error {e}"
     if !c.errors.isEmpty then return 2
     cmdTrace c (rest.contains "--spec")
+  | "bufrun" :: path :: _ =>
+    let lines ← IO.FS.lines path
+    let c := Case.ofLines lines
+    for e in c.errors do IO.println s!"error {e}"
+    if !c.errors.isEmpty then return 2
+    cmdBufRun c
   | "useful" :: path :: rest =>
     let lines ← IO.FS.lines path
     let c := Case.ofLines lines
